@@ -394,6 +394,7 @@ package allocator
 //@   ensures [poolsSame] a.pools == old(a.pools) && (forall n string :: (n in a.pools.ByName) == old(n in a.pools.ByName) && a.pools.ByName[n] == old(a.pools.ByName[n]))
 //@   loop 1 invariant sk != nil && fresh(sk) && sk.sharing == sharingKey && sk.backend == backendKey && pool != nil
 //@   loop 1 invariant forall k int :: 0 <= k && k < iter ==> Sharable(a, svcKey, net.ipstr(ips[k]), ports, sharingKey, backendKey)
+//@   loop 1 invariant [poh] forall x string, s string, p Port :: (s in a.servicesOnIP[x]) && HasPort(a.allocated[s], p) ==> (p in a.portsInUse[x]) && a.portsInUse[x][p] == s
 //@   loop 1 invariant Inv(a) && (forall s string :: a.allocated[s] == old(a.allocated[s]))
 //@   loop 1 invariant forall n string :: (n in a.pools.ByName) == old(n in a.pools.ByName) && a.pools.ByName[n] == old(a.pools.ByName[n])
 //@   assert before assign: [wf] WFAlloc(alloc)
@@ -403,6 +404,10 @@ package allocator
 //@   assert before assign: [hasport] forall p Port :: HasPort(alloc, p) ==> (exists m int :: 0 <= m && m < len(ports) && ports[m] == p)
 //@   assert before assign: [keyOfHolder] forall x string, s string :: (s in a.servicesOnIP[x]) ==>
 //@       a.sharingKeyForIP[x] != nil && a.sharingKeyForIP[x].sharing == a.allocated[s].sharing && a.sharingKeyForIP[x].backend == a.allocated[s].backend
+//@   assert before copy#1: [hpStable0] forall s string, p Port :: { HasPort(a.allocated[s], p) } HasPort(a.allocated[s], p) == old(HasPort(a.allocated[s], p))
+//@   assert before assign: [hpStable] forall s string, p Port :: { HasPort(a.allocated[s], p) } HasPort(a.allocated[s], p) == old(HasPort(a.allocated[s], p))
+//@   assert before assign: [pohOld] forall x string, s string, p Port :: old((s in a.servicesOnIP[x]) && HasPort(a.allocated[s], p)) ==> old((p in a.portsInUse[x]) && a.portsInUse[x][p] == s)
+//@   assert before assign: [ownsG] forall in bool, cur *alloc, s string, x string, p Port :: { OwnsPortG(in, cur, false, "", nil, 0, 0, s, x, p) } OwnsPortG(in, cur, false, "", nil, 0, 0, s, x, p) == (in && HasPort(cur, p))
 //@   assert before assign: [portOfHolder] forall x string, s string, p Port :: (s in a.servicesOnIP[x]) && HasPort(a.allocated[s], p) ==> (p in a.portsInUse[x]) && a.portsInUse[x][p] == s
 //@   assert before assign: [safe] SafeFor(a, svcKey, alloc)
 
